@@ -11,9 +11,10 @@ DRIVERS = [
     ("ring_driver", "ExtractRing.v", "ring_model.ml", "ring_driver.ml"),
     ("lcm_driver", "ExtractLcm.v", "lcm_model.ml", "lcm_driver.ml"),
     ("routing_driver", "ExtractRouting.v", "routing_model.ml", "routing_driver.ml"),
+    ("tls_driver", "ExtractTls.v", "tls_model.ml", "tls_driver.ml"),
     ("observer_driver", "ExtractObserver.v", "observer_model.ml", "observer_driver.ml"),
 ]
-GO_PKGS = ["proxy"]
+GO_PKGS = ["proxy", "encryption"]
 
 
 def main():
